@@ -419,10 +419,10 @@ class BaseEncoder:
 
 def _quote_doc(doc):
     """Return a triple-quoted string literal whose value is ``doc``"""
-    s = doc.replace("\\", "\\\\").replace('"""', '\\"\\"\\"')
+    s = doc.replace("\\", "\\\\")
     if s.endswith('"'):
         s = s[:-1] + '\\"'
-    return '"""' + s + '"""'
+    return '"""' + s.replace('"""', '\\"\\"\\"') + '"""'
 
 
 class ModelEncoder(BaseEncoder):
